@@ -497,3 +497,118 @@ func VerifC05_PgRejectedThenAccepted() {
 		verif.Assert(verif.Eq(out, verifDataRow([]byte("1"), lit, []byte("keep"))), "accepted-statement-processed-by-its-own-settings")
 	}
 }
+
+// verifDescribedOIDs reads the type OIDs out of a RowDescription message.
+func verifDescribedOIDs(msg []byte) ([]uint32, bool) {
+	if len(msg) < 7 || msg[0] != 'T' {
+		return nil, false
+	}
+	n := int(msg[5])<<8 | int(msg[6])
+	pos := 7
+	var oids []uint32
+	for i := 0; i < n; i++ {
+		for pos < len(msg) && msg[pos] != 0 {
+			pos++
+		}
+		pos++
+		if pos+18 > len(msg) {
+			return nil, false
+		}
+		oids = append(oids, uint32(msg[pos+6])<<24|uint32(msg[pos+7])<<16|uint32(msg[pos+8])<<8|uint32(msg[pos+9]))
+		pos += 18
+	}
+	return oids, pos == len(msg)
+}
+
+// VerifC19_PgRowDescriptionTypes: two protected columns with declared types in one result. Whatever the pair of types
+// and whichever of them the database already reports with the declared type, the description the client receives
+// names the declared type for both (PostgreSQL catalog: int4 23, int8 20, text 25, bytea 17) and leaves the
+// uncovered column alone.
+func VerifC19_PgRowDescriptionTypes() {
+	store := verifPgKeys()
+	env := config.CryptoEnvelopeTypeAcraBlock
+	types := []string{"int32", "int64", "str", "bytes"}
+	oids := []uint32{23, 20, 25, 17}
+	a := verif.Choose("first-type", 0, 3)
+	b := verif.Choose("second-type", 0, 3)
+	s1 := &config.BasicColumnEncryptionSetting{Name: "secret", UsedClientID: "A", CryptoEnvelope: &env, DataType: types[a]}
+	s2 := &config.BasicColumnEncryptionSetting{Name: "plain", UsedClientID: "A", CryptoEnvelope: &env, DataType: types[b]}
+	w := verifNewPgWith(store, "A", s1, s2)
+	if _, _, err := w.fromClient(verifQuery([]byte("select id, secret, plain from t"))); err != nil {
+		return
+	}
+	// the database reports both protected columns as bytea and the id as int4
+	body := []byte{0, 3}
+	for i, n := range []string{"id", "secret", "plain"} {
+		body = append(body, n...)
+		body = append(body, 0)
+		oid := byte(17)
+		if i == 0 {
+			oid = 23
+		}
+		body = append(body, 0, 0, 0x40, 0, 0, byte(i+1), 0, 0, 0, oid, 0xff, 0xff, 0xff, 0xff, 0xff, 0xff, 0, 0)
+	}
+	out, err := w.fromDB(verifFrame('T', body))
+	verif.Reach("description-processed")
+	verif.Assert(err == nil, "description-no-error")
+	if err != nil {
+		return
+	}
+	got, ok := verifDescribedOIDs(out)
+	verif.Assert(ok && len(got) == 3, "description-well-formed")
+	if !ok || len(got) != 3 {
+		return
+	}
+	verif.Assert(got[0] == 23, "uncovered-column-description-unchanged")
+	verif.Assert(got[1] == oids[a], "first-typed-column-described-as-declared")
+	verif.Assert(got[2] == oids[b], "second-typed-column-described-as-declared")
+}
+
+// VerifC14_PgExtendedSequence: Parse / Bind / Execute / Sync of one client through the real proxy with an encrypted
+// and searchable column configured. The statement text ranges over empty and comment-only texts, reads and writes with
+// placeholders; the Bind carries 0..2 parameters of 0..1 arbitrary ASCII bytes and arbitrary format codes — fewer or more
+// than the statement has placeholders. Nothing panics (the engine reports a Go panic as a finding).
+func VerifC14_PgExtendedSequence() {
+	store := verifPgKeys()
+	env := config.CryptoEnvelopeTypeAcraBlock
+	setting := &config.BasicColumnEncryptionSetting{Name: "secret", UsedClientID: "A", CryptoEnvelope: &env, Searchable: true}
+	w := verifNewPgWith(store, "A", setting)
+	texts := []string{
+		"", " ", ";", "-- nothing", "select 1",
+		"insert into t (id, secret, plain) values ($1, $2, $3)",
+		"insert into t values ($1, $2, $3)",
+		"update t set secret = $1 where id = $2",
+		"select id, secret, plain from t where secret = $1",
+		"delete from t where secret = $2",
+	}
+	text := texts[verif.Choose("statement", 0, len(texts)-1)]
+	if _, _, err := w.fromClient(verifParse("s", text)); err != nil {
+		return
+	}
+	n := verif.Choose("params", 0, 2+verif.Tier())
+	var params [][]byte
+	for i := 0; i < n; i++ {
+		p := verif.Bytes("p"+string(rune('0'+i)), verif.Choose("l"+string(rune('0'+i)), 0, 1+verif.Tier()))
+		for j := range p {
+			verif.Assume(p[j] < 0x80) // text parameters outside ASCII need the UTF-8 decoder over symbolic bytes
+		}
+		params = append(params, p)
+	}
+	var pf []uint16
+	switch verif.Choose("param-formats", 0, 2) {
+	case 1:
+		pf = []uint16{uint16(verif.U8("pf0"))}
+	case 2:
+		for i := 0; i < n; i++ {
+			pf = append(pf, uint16(verif.U8("pf"+string(rune('0'+i)))&1))
+		}
+	}
+	_, _, err := w.fromClient(verifBind("s", pf, params, nil))
+	verif.Reach("bind-processed")
+	if err != nil {
+		return
+	}
+	w.fromClient(verifExecute())
+	w.fromClient(verifSync())
+	verif.Reach("sequence-processed")
+}
